@@ -22,18 +22,25 @@ func init() {
 			"(2) BuildDisruptionBudgetMapping counts only managed ∧ initialized ∧ ¬InstanceTerminating nodes, counts a node as disrupting iff Ready≠True ∨ MarkedForDeletion, and stores max(allowed − disrupting, 0); " +
 			"(3) the implementers of disruption.Method are exactly the five known ones and each selects candidates only under mapping[pool]≠0, decrementing per selected candidate where several per pool can be chosen (Emptiness, MultiNode; StaticDrift bounds by min(mapping, len)); " +
 			"(4) both validators rebuild the mapping and apply zero-check + decrement + nomination check per candidate, and ConsolidationValidator.isValid validates candidates before and after the command; " +
-			"(5) Controller.disrupt calls ComputeCommands only with a mapping built without error for the method's own reason.",
-		NotCovered: []string{"cron arithmetic inside robfig/cron", "accumulation across rounds beyond 'marked nodes are subtracted'", "numeric values of percent rounding"},
+			"(5) Controller.disrupt calls ComputeCommands only with a mapping built without error for the method's own reason; " +
+			"(6) the budget re-check binds the command that is handed on: every implementer of disruption.Validator returns, on success, a command whose Candidates are the result of its own validateCandidates (tested for error) — or the command it was given when that re-validation is all-or-nothing (success only with len(result) == len(input)); " +
+			"and every method that owns a Validator returns from ComputeCommands the command Validate returned — or the one it handed to Validate when the validator its constructor wires returns its input (VALID1/VALID2, shared with C07).",
+		NotCovered: []string{"cron arithmetic inside robfig/cron", "accumulation across rounds beyond 'marked nodes are subtracted'", "numeric values of percent rounding",
+			"validators injected through WithValidator by callers other than the method constructors (only the constructors' own wiring is resolved)",
+			"what Controller.disrupt does to a command between ComputeCommands and Queue.StartCommand"},
 		Rules:      c05Rules,
 	})
 }
 
 func c05Rules(tier string) []Rule {
-	return append(c05RulesBase(tier),
+	rules := append(c05RulesBase(tier),
 		// what counts as disrupting includes nodes marked for deletion by a command in flight: the mark survives Node updates
 		core.Custom{ID: "C05.COPY1", Kind: "COPY", Run: func(w *core.World, id string) []core.Result {
 			return fromNode(w, id, []string{"markedForDeletion"})
 		}})
+	// the budget re-check of the validators only binds if the command that leaves the validation step is the one the
+	// validator returned (trimmed to what the rebuilt budget still allows): shared_A.go
+	return append(rules, validatedCommandRules("C05")...)
 }
 
 func c05RulesBase(tier string) []Rule {
